@@ -433,9 +433,9 @@ def _roundtrip_case(ctx, out: Outcome, spec, fmt, units_out, prec, want_model=Tr
     if fmt == "psi4":
         readers = ["psi4", None]
     else:
-        readers = ["xyz+"]
+        readers = ["xyz+", None]  # auto-detection must reach a dialect that reads the writer's own text, whatever the unit spelt on the count line
         if not ghosts and units_out == "Angstrom":
-            readers += ["xyz", None]
+            readers += ["xyz"]
     default_mass = spec.get("iso") is None
     for rd in readers:
         tag = f"{fmt}->{rd or 'auto'}"
@@ -719,6 +719,40 @@ def _layout_case(ctx, out: Outcome, text, fmt, dtype, new_text, knobs):
         diff = [k for k in ca if ca[k] != cb[k]]
         out.violations.append(Finding("oracle:layout", case, observed={k: cb[k] for k in diff}, expected={k: ca[k] for k in diff},
                                       detail=f"layout rewrite ({','.join(sorted(knobs))}) changes the parse result in {diff}"))
+
+
+def _title_case(ctx, out: Outcome, text, fmt, dtype, rng):
+    """xyz / xyz+: the second line is free text.  With the title emptied as the reference, a title (or a line inserted after a
+    blank title) that consists of a comment only must give the same parse result: comments are layout, and in a format where
+    the line POSITION matters a comment-only line must stay a (blank) line."""
+    lines = text.split("\n")
+    if len(lines) < 3:
+        return
+    ref = "\n".join([lines[0], ""] + lines[2:])
+    a = impl_parse(ref, dtype)
+    if a[0] != "ok":
+        return
+    c = _comment(rng).lstrip()
+    variants = {"comment-only title": [lines[0], c] + lines[2:], "indented comment-only title": [lines[0], rng.choice(["  ", "\t", " \t "]) + c] + lines[2:],
+                "blank title with trailing comment": [lines[0], rng.choice([" ", "\t"]) + c] + lines[2:]}
+    if dtype != "xyz":
+        variants["blank title, then a comment-only line"] = [lines[0], "", c] + lines[2:]
+    name = rng.choice(sorted(variants))
+    new_text = "\n".join(variants[name])
+    case = {"stream": "layout", "text": ref, "fmt": fmt, "dtype": dtype, "rewritten": new_text, "knobs": ["title:" + name]}
+    out.evaluations += 1
+    out.count("B:title:" + name)
+    out.nontrivial(("Bt", dtype, new_text))
+    b = impl_parse(new_text, dtype)
+    if b[0] != "ok":
+        out.violations.append(Finding("oracle:layout", case, observed=(b[1] if b[0] == "err" else "no molecule"), expected="same molecule",
+                                      detail=f"{name}: not read ({b[2] if b[0]=='err' else ''})"))
+        return
+    ca, cb = canon_rec(a[1]), canon_rec(b[1])
+    if ca != cb:
+        diff = [k for k in ca if ca[k] != cb[k]]
+        out.violations.append(Finding("oracle:layout", case, observed={k: cb[k] for k in diff}, expected={k: ca[k] for k in diff},
+                                      detail=f"{name} instead of an empty title changes the parse result in {diff}"))
 
 
 # --------------------------------------------------------------------------------------
@@ -1343,7 +1377,7 @@ def _run(ctx: Ctx, out: Outcome):
             t = roundtrip_case(ctx, out, spec, fmt, u, prec)
             if t is not None:
                 ghosts = not all(spec["real"])
-                rds = ["psi4", None] if fmt == "psi4" else (["xyz+"] + (["xyz", None] if (not ghosts and u == "Angstrom") else []))
+                rds = ["psi4", None] if fmt == "psi4" else (["xyz+", None] + (["xyz"] if (not ghosts and u == "Angstrom") else []))
                 valid.append((t, fmt, rds))
                 if len(out.samples) < 2:
                     out.sample({"stream": "A", "fmt": fmt, "units": u, "prec": prec, "text": t})
@@ -1356,6 +1390,8 @@ def _run(ctx: Ctx, out: Outcome):
             rd = rng.choice(rds)
             nt, knobs = relayout(rng, t, "xyz" if rd == "xyz" else fmt)
             layout_case(ctx, out, t, fmt, rd, nt, knobs)
+            if fmt != "psi4" and rng.random() < 0.5:
+                _title_case(ctx, out, t, fmt, rd, rng)
             if len(out.samples) < 4:
                 out.sample({"stream": "B", "dtype": rd, "knobs": sorted(knobs), "text": nt})
     # C
